@@ -333,7 +333,7 @@ type mon struct{}
 func (mon) Name() string { return "ipfilter" }
 
 func (mon) Level(string) (string, string) {
-	return "exploration", "operation sequences (exhaustive over a 12-op alphabet up to length 4 (quick) / 5 (thorough), replayed from empty and after 254/255/256 filler adds so that they run in list mode, across the list→map migration and in map mode; plus seeded random sequences over a small universe steered across the migration), every boundary address of every touched range probed in 4- and 16-byte form against a set-of-prefixes model; the package's other exported helpers (FirstIP/LastIP) are called between the operations, and in 1/8 (exhaustive) resp. 1/3 (random) of the sequences a second filter instance receives the same history shifted into another address space, each instance probed with both spaces against its own model; distinct_nontrivial = distinct (filler, sequence) pairs whose sequence changes the model at least once"
+	return "exploration", "operation sequences (exhaustive over a 12-op alphabet up to length 4 (quick) / 5 (thorough), and over a 10-op alphabet of edge ranges (network address 0.0.0.0, top of the address space) up to length 3, replayed from empty and after 254/255/256 filler adds so that they run in list mode, across the list→map migration and in map mode; plus seeded random sequences over a small universe steered across the migration), every boundary address of every touched range probed in 4- and 16-byte form against a set-of-prefixes model; the package's other exported helpers (FirstIP/LastIP) are called between the operations, and in 1/8 (exhaustive) resp. 1/3 (random) of the sequences a second filter instance receives the same history shifted into another address space, each instance probed with both spaces against its own model; distinct_nontrivial = distinct (filler, sequence) pairs whose sequence changes the model at least once"
 }
 
 func (mon) Assumptions(string) []string {
@@ -373,6 +373,30 @@ var universe = []Op{
 	{IP: 0x01020304, Ones: 0},                 // 1.2.3.4/0
 	{IP: 0xFFFFFFFF, Ones: 1},                 // 255.255.255.255/1
 	{IP: 10<<24 | 0x7f<<16, Ones: 9},          // 10.127.0.0/9
+}
+
+// a second, small universe: ranges whose network address is 0.0.0.0 (a slot or key of value 0 must
+// not be taken for "empty") and the top of the address space (first + size wraps around)
+var universeEdge = []Op{
+	{IP: 0<<24 | 1<<16 | 2<<8 | 3, Ones: 8}, // 0.1.2.3/8
+	{IP: 5, Ones: 12},                       // 0.0.0.5/12
+	{IP: 0, Ones: 32},                       // 0.0.0.0/32
+	{IP: 0xFFFFFF07, Ones: 24},              // 255.255.255.7/24
+	{IP: 0xFFFFFFFF, Ones: 32},              // 255.255.255.255/32
+}
+
+func alphabetOf(univ []Op) []Op {
+	var al []Op
+	for _, u := range univ {
+		al = append(al, u)
+		r := u
+		r.Rem = true
+		if r.Ones < 32 {
+			r.IP ^= 1
+		}
+		al = append(al, r)
+	}
+	return al
 }
 
 func alphabet() []Op {
@@ -464,6 +488,34 @@ func (mn mon) Run(sh drv.Shard, c *drv.Ctx) {
 			return true
 		}
 		rec(nil, 0)
+		// the edge universe, to length 3, same fillers
+		al = alphabetOf(universeEdge)
+		idx = 0
+		maxEdge := 3
+		var recE func(prefix []Op, depth int) bool
+		recE = func(prefix []Op, depth int) bool {
+			if len(prefix) > 0 {
+				idx++
+				if idx%a.Parts == a.Part {
+					for _, fl := range fillers {
+						cs := Case{Filler: fl[0], FillerRem: fl[1], Ops: append([]Op(nil), prefix...), ProbeEvery: 1, RandProbes: 2, Seed: sh.Seed + int64(idx), Twin: (idx/a.Parts)%8 == 0}
+						if !exec(cs) {
+							return false
+						}
+					}
+				}
+			}
+			if depth == maxEdge {
+				return true
+			}
+			for _, o := range al {
+				if !recE(append(prefix, o), depth+1) {
+					return false
+				}
+			}
+			return true
+		}
+		recE(nil, 0)
 	case "rand":
 		r := rand.New(rand.NewSource(sh.Seed*1000003 + int64(a.Part)))
 		for i := 0; i < a.Count; i++ {
